@@ -1,7 +1,7 @@
 (* C04 -- statements only; see DESIGN.md section 6 C04.  Theorems are added as the proofs land;
    the witnesses below are evaluated in the kernel on the whole-parser model. *)
 From Coq Require Import String.
-From MdIt Require Import Prims Tables Mdurl Escape HtmlRe Tree Render Core Dump Dispatch MdurlProofs RenderProofs LinkProofs.
+From MdIt Require Import Prims Tables Mdurl Escape HtmlRe Tree Render Core Dump Dispatch MdurlProofs RenderProofs LinkProofs LinkSafeProofs.
 Local Open Scope string_scope.
 Local Open Scope list_scope.
 Local Open Scope N_scope.
@@ -19,8 +19,8 @@ Example C04_witness_rejected :
 ".
 Proof. vm_compute. reflexivity. Qed.
 
-(* FULL STATEMENT (not proved end to end; decided on every run by the browser-scheme oracle on the
-   implementation's output and by the model/implementation correspondence): no href/src in the
+(* FULL STATEMENT (proved up to one gap, see C04_sites below; decided in addition on every run by the browser-scheme
+   oracle on the implementation's output and by the model/implementation correspondence): no href/src in the
    output of any parse is read by a browser as a javascript/vbscript/file/data URL.
 
    PROVED PART: the pipeline every destination goes through at the three call sites
@@ -56,7 +56,38 @@ Example C04_nonvacuous :
   browser_view (escape_html (normalize_link (bs " javascript:x"))) = bs "%20javascript:x".
 Proof. vm_compute. repeat split. Qed.
 
+(* THE CALL SITES, end to end over the whole-parser model: every Link, Image and Autolink node of every parsed tree
+   (every parser configuration, every input) carries a URL that came out of normalize_link and was accepted by
+   validate_link -- stated for an arbitrary property `good` shared by all validated normalised links (reference
+   definitions included: the reference map only ever receives such destinations), and instantiated with validate_link
+   itself.  Together with the pipeline theorems above this gives the full statement for every input whose bytes are
+   bytes (< 256); that side condition of the normaliser's theorems is the one gap: it is a fact about the model's
+   representation of strings (lists of N), true of every real input, and not carried through the parser here. *)
+Theorem C04_sites : forall good : str -> bool,
+  (forall s, validate_link (normalize_link s) = true -> good (normalize_link s) = true) -> good [] = true ->
+  forall fuel m src d, LinkSafeProofs.md_pairs_ok good m = true -> snd (parse fuel m src) = inr d ->
+  LinkSafeProofs.raw_free good (d_root d) = true.
+Proof. exact LinkSafeProofs.parse_links_good. Qed.
+
+Theorem C04_tree_urls_validated : forall fuel m src d,
+  LinkSafeProofs.md_pairs_ok validate_link m = true -> snd (parse fuel m src) = inr d ->
+  LinkSafeProofs.raw_free validate_link (d_root d) = true.
+Proof. exact (LinkSafeProofs.parse_links_good validate_link (fun s H => H) eq_refl). Qed.
+
+Example C04_sites_nonvacuous :
+  let m := build_md (bs "CsW") 100 in
+  LinkSafeProofs.md_pairs_ok validate_link m = true /\
+  match snd (parse (default_fuel m) m (bs "[a](http://x/%zz) <mailto:q@r.s> ![i](data:image/png;base64,AA)
+
+[r]: <JavaScript:1>
+
+[r]")) with
+  | inr d => LinkSafeProofs.raw_free validate_link (d_root d) = true /\ depth_of (d_root d) = 3%nat | inl _ => False end.
+Proof. vm_compute. repeat split. Qed.
+
 Print Assumptions C04_normalized_printable.
 Print Assumptions C04_browser_sees_normalized.
 Print Assumptions C04_validate_spec.
 Print Assumptions C04_pipeline.
+Print Assumptions C04_sites.
+Print Assumptions C04_tree_urls_validated.
